@@ -18,7 +18,7 @@ include!("@VERIF@/contracts/_common/common.rs");
 use ufp::{dec as udec, enc as uenc};
 pub mod ufp {
     use super::*;
-    pub const MAXC: usize = 16;
+    pub const MAXC: usize = 40;
     pub static mut K: [[u64; 16]; MAXC] = [[0; 16]; MAXC];
     pub static mut X: [u64; MAXC] = [0; MAXC];
     pub static mut Y: [u64; MAXC] = [0; MAXC];
@@ -274,3 +274,53 @@ fn l_two_key_is_three_key() {
     let b = TdesEee3::new(&Array(k3));
     assert!(eq16(&a.d1.keys, &b.d1.keys) && eq16(&a.d2.keys, &b.d2.keys) && eq16(&a.d1.keys, &b.d3.keys));
 }
+
+// C04 / C05 for the Triple-DES types through separate input and output buffers (block-mode crates call them this way):
+// encrypt_block_b2b / decrypt_block_b2b and the n-block forms equal the in-place results, the input is untouched and
+// guard blocks around the output survive.  Des::{encrypt,decrypt}: the uninterpreted inverse pair.
+macro_rules! tdes_b2b {
+    ($name:ident, $mk:expr) => {
+        #[kani::proof]
+        #[kani::stub(Des::encrypt, ufp::enc)]
+        #[kani::stub(Des::decrypt, ufp::dec)]
+        #[kani::unwind(65)]
+        fn $name() {
+            let t = $mk;
+            let b: [[u8; 8]; 2] = kani::any();
+            let mut e = [[0u8; 8]; 2];
+            let mut d = [[0u8; 8]; 2];
+            let mut i = 0;
+            while i < 2 {
+                let mut x = Array(b[i]);
+                cipher::BlockCipherEncrypt::encrypt_block(&t, &mut x);
+                e[i] = x.0;
+                let mut x = Array(b[i]);
+                cipher::BlockCipherDecrypt::decrypt_block(&t, &mut x);
+                d[i] = x.0;
+                i += 1;
+            }
+            let src = [Array(b[0]), Array(b[1])];
+            let g: [u8; 8] = kani::any();
+            let mut dst = [Array(g); 4];
+            cipher::BlockCipherEncrypt::encrypt_blocks_b2b(&t, &src, &mut dst[1..3]).unwrap();
+            assert!(dst[0].0 == g && dst[3].0 == g && dst[1].0 == e[0] && dst[2].0 == e[1]);
+            assert!(src[0].0 == b[0] && src[1].0 == b[1]);
+            let mut dst = [Array(g); 4];
+            cipher::BlockCipherDecrypt::decrypt_blocks_b2b(&t, &src, &mut dst[1..3]).unwrap();
+            assert!(dst[0].0 == g && dst[3].0 == g && dst[1].0 == d[0] && dst[2].0 == d[1]);
+            let mut one = Array(g);
+            cipher::BlockCipherEncrypt::encrypt_block_b2b(&t, &src[0], &mut one);
+            assert!(one.0 == e[0]);
+            cipher::BlockCipherDecrypt::decrypt_block_b2b(&t, &src[1], &mut one);
+            assert!(one.0 == d[1]);
+        }
+    };
+}
+// @ob name=m_ede3_b2b props=C04,C05,C15 kind=bounded bound="n = 2 blocks" fn=des::TdesEde3::encrypt_block,des::TdesEde3::decrypt_block uses=l_des_roundtrip,c_des_encrypt,c_des_decrypt timeout=600
+tdes_b2b!(m_ede3_b2b, TdesEde3 { d1: any_des(), d2: any_des(), d3: any_des() });
+// @ob name=m_eee3_b2b props=C04,C05,C15 kind=bounded bound="n = 2 blocks" fn=des::TdesEee3::encrypt_block,des::TdesEee3::decrypt_block uses=l_des_roundtrip,c_des_encrypt,c_des_decrypt timeout=600
+tdes_b2b!(m_eee3_b2b, TdesEee3 { d1: any_des(), d2: any_des(), d3: any_des() });
+// @ob name=m_ede2_b2b props=C04,C05,C15 kind=bounded bound="n = 2 blocks" fn=des::TdesEde2::encrypt_block,des::TdesEde2::decrypt_block uses=l_des_roundtrip,c_des_encrypt,c_des_decrypt timeout=600
+tdes_b2b!(m_ede2_b2b, TdesEde2 { d1: any_des(), d2: any_des() });
+// @ob name=m_eee2_b2b props=C04,C05,C15 kind=bounded bound="n = 2 blocks" fn=des::TdesEee2::encrypt_block,des::TdesEee2::decrypt_block uses=l_des_roundtrip,c_des_encrypt,c_des_decrypt timeout=600
+tdes_b2b!(m_eee2_b2b, TdesEee2 { d1: any_des(), d2: any_des() });
